@@ -9,7 +9,8 @@
    [decode] is MakeLabelVolume, [value_at] Block.Value, [point_label] GetPointLabels,
    [write_rles true] the repaired WriteRLEs, [marshal]/[unmarshal] (Un)MarshalBinary. *)
 From DV Require Import Base.Prelude Base.Int Base.BitPack Model.Block Model.BlockViews
-     Proofs.BitPack Proofs.Block Proofs.BlockMarshal Proofs.BlockViews Gen.Consts.
+     Proofs.BitPack Proofs.Block Proofs.BlockMarshal Proofs.BlockViews Proofs.Downres Proofs.BlockCount Gen.Consts.
+From DV Require Import Model.BlockOps.
 Local Open Scope N_scope.
 
 (* Bit packing: in a run of k-bit fields (k = 1..9, any number of fields filling whole bytes, as
@@ -110,15 +111,19 @@ Theorem C09_rle_unrepaired_refuted :
 Proof. exact write_rles_unrepaired_panics. Qed.
 Print Assumptions C09_rle_unrepaired_refuted.
 
-(* Stated, not proved (validated on every generated case only): the remaining two views.
-   Counts: CalcNumLabels on the block = number of voxels of each non-zero label in the array.
-   Binary blocks: BinaryBlock.Read (WriteBinaryBlocks b) = the mask of the label set in the array. *)
-Definition C09_counts_statement : Prop :=
-  forall tbl a gx gy gz b, length a = N.to_nat (8 * gx * (8 * gy) * (8 * gz)) ->
-    (forall l, In l a -> In l tbl) -> encode tbl a gx gy gz = Ok b ->
-    exists d, calc_num_labels b = Ok d /\
-      forall l, l <> 0 -> fold_left (fun acc p => if fst p =? l then acc + snd p else acc) d 0
-                          = N.of_nat (count_occ N.eq_dec a l).
+(* Counts view: CalcNumLabels(nil) on the compressed block is a duplicate-free map without a 0 key
+   that gives, for every non-zero label, the number of voxels of the decoded array with that label
+   (the ZYX array is a permutation of the concatenated sub-blocks: Proofs.BlockCount.assemble_perm). *)
+Theorem C09_counts_view : forall tbl vol wx wy wz ox oy oz gx gy gz sbs b a,
+  gather vol wx wy ox oy oz gx gy gz = Ok sbs -> covers tbl sbs ->
+  encode_at tbl vol wx wy wz ox oy oz gx gy gz = Ok b -> decode b = Ok a ->
+  exists d, calc_num_labels b = Ok d /\ NoDup (map fst d) /\ (forall e, In e d -> fst e <> 0) /\
+    forall l, l <> 0 -> lookup d l = count_eq a l.
+Proof. exact calc_num_labels_encode. Qed.
+Print Assumptions C09_counts_view.
+
+(* Stated, not proved (validated on every generated case only): the binary-block view.
+   BinaryBlock.Read (WriteBinaryBlocks b) = the mask of the label set in the array. *)
 Definition C09_binary_statement : Prop :=
   forall tbl a gx gy gz b main lbls bx by_ bz o, length a = N.to_nat (8 * gx * (8 * gy) * (8 * gz)) ->
     (forall l, In l a -> In l tbl) -> NoDup tbl -> encode tbl a gx gy gz = Ok b ->
